@@ -2,8 +2,6 @@ package main
 
 import "fmt"
 
-func replay(args []string) error { return fmt.Errorf("replay: not built yet") }
-
 func conc(args []string) error {
 	if len(args) == 0 {
 		return fmt.Errorf("usage: vdrive conc stress|sched|parallel ...")
